@@ -131,7 +131,7 @@ def register(reg):
     END = "path[len(path) - 1]"
     UPD_MOD = ETG + ["*HCT_node.u_value", "*HCT_node.b_value", "*HCT_node.mean_reward", "self.iteration",
                      END + ".children", "self.partition.depth", "list(self.partition.node_list)",
-                     "list(self.partition.node_list[%s.depth + 1]) if %s.depth < self.partition.depth" % (END, END)]
+                     "list(self.partition.node_list[%s.depth + 1]) when %s.depth < self.partition.depth" % (END, END)]
     OLDN = "for h in range(old(self.partition.depth) + 1) for k in range(old(len(%s[h])))" % NL
     AFTER = [
         ("credited", "Credited(%s, reward)" % END, "C04"),
